@@ -601,6 +601,7 @@ func Attack(args []string) {
 			e.attackTar("valid collection followed by a traversal entry", append(append([]byte{}, good[:idx]...), extra...), pub)
 		}
 		total += e.n
+		total += crossGraphAttacks(w, 100+hid, codec, filepath.Join(root, codec+"-2g"))
 	}
 	w.Close()
 	// anything that escaped to well-known places
@@ -612,4 +613,76 @@ func Attack(args []string) {
 	}
 	_ = io.Discard
 	fmt.Printf("{\"attacks\":%d}\n", total)
+}
+
+// crossGraphAttacks: a dump of two graphs in which one graph's relationship fragment is replaced by the other graph's,
+// with the manifest entry (hash, sizes, counts) rewritten to match - a consistent forgery that only the semantic
+// preflight (do the endpoints exist in that graph?) can refuse, and it has to refuse before anything is written.
+func crossGraphAttacks(w *tr.Writer, hid int, codec, root string) int {
+	cfg := Config{Graphs: []GraphCfg{{"g0", 3, 2}, {"g1", 2, 1}}, Shard: 2, Batch: 2, Codec: codec}
+	e := &attackEnv{cfg: cfg, w: w, hid: hid, root: root, files: map[string][]byte{}}
+	os.MkdirAll(e.root, 0o755)
+	e.dump = filepath.Join(e.root, "dump")
+	if _, err := retriever.Dump(context.Background(), cfg.BuildRichDB(false), "fake", cfg.targets(), cfg.dumpOptions(e.dump, 0)); err != nil {
+		tr.Fatal("two-graph dump: %v", err)
+	}
+	filepath.WalkDir(e.dump, func(p string, d os.DirEntry, err error) error {
+		if err == nil && !d.IsDir() {
+			rel, _ := filepath.Rel(e.dump, p)
+			b, _ := os.ReadFile(p)
+			e.files[filepath.ToSlash(rel)] = b
+			e.order = append(e.order, filepath.ToSlash(rel))
+		}
+		return nil
+	})
+	bm, _ := consumedOf(e.files["manifest.json"])
+	e.baseMan = bm
+	db := fakedb.New()
+	lo := retriever.DefaultLoadOptions(e.dump)
+	lo.BatchSize = 2
+	if _, err := retriever.Load(context.Background(), db, "fake", lo); err != nil {
+		tr.Fatal("two-graph baseline load: %v", err)
+	}
+	e.base = e.loadedRecs(db)
+	w.Emit(map[string]any{"e": "src", "hid": hid, "cfg": cfg, "graphs": cfg.srcGraphs(), "sizes": map[string]int{"manifest": len(e.files["manifest.json"]), "tar": 0, "enc": 0}})
+	e.attackDir("control", map[string][]byte{}, "lenient")
+	var man map[string]any
+	if json.Unmarshal(e.files["manifest.json"], &man) != nil {
+		tr.Fatal("two-graph manifest")
+	}
+	graphs := man["graphs"].([]any)
+	edgeFile := func(g map[string]any) map[string]any {
+		for _, f := range g["files"].([]any) {
+			fm := f.(map[string]any)
+			if ph, _ := fm["phase"].(string); strings.Contains(ph, "edge") || strings.Contains(ph, "relationship") {
+				return fm
+			}
+		}
+		return nil
+	}
+	for from := range graphs {
+		for to := range graphs {
+			src, dst := edgeFile(graphs[from].(map[string]any)), edgeFile(graphs[to].(map[string]any))
+			if from == to || src == nil || dst == nil {
+				continue
+			}
+			var m map[string]any
+			json.Unmarshal(e.files["manifest.json"], &m)
+			tg := m["graphs"].([]any)[to].(map[string]any)
+			tf := edgeFile(tg)
+			oldCount, _ := tf["count"].(float64)
+			for _, k := range []string{"count", "compressed_bytes", "uncompressed_bytes", "sha256", "action_counts"} {
+				tf[k] = src[k]
+			}
+			newCount, _ := tf["count"].(float64)
+			if ec, ok := tg["edge_count"].(float64); ok {
+				tg["edge_count"] = ec - oldCount + newCount
+			}
+			delete(m, "metrics")
+			b, _ := json.MarshalIndent(m, "", "  ")
+			what := fmt.Sprintf("relationship fragment of %s replaced by that of %s, manifest entry rewritten to match", tg["name"], graphs[from].(map[string]any)["name"])
+			e.attackDir(what, map[string][]byte{dst["path"].(string): e.files[src["path"].(string)], "manifest.json": b}, "strict")
+		}
+	}
+	return e.n
 }
